@@ -407,6 +407,26 @@ func c04Scenario(p c04P, b Bounds) *Scenario {
 					if p.Noise == "dup" {
 						alt = strings.Replace(got, `="DUP"`, fmt.Sprintf(`="R:%s:%s"`, firstM, idOf[firstM]), 1)
 					}
+					if strings.HasPrefix(p.Noise, "badreply-") {
+						// the entry whose id the invalid reply carried may have ended with an error (for the bare-id form: with an
+						// empty success) instead of its real reply: as for single calls above
+						var parts []string
+						if cut := strings.LastIndex(got, " "+idOf["b1"]+"="); cut >= 0 {
+							parts = []string{got[:cut], got[cut+1:]}
+						}
+						wants := []string{want0, want1}
+						k := 0
+						if firstM == "b1" {
+							k = 1
+						}
+						if len(parts) == 2 {
+							bareOK := p.Noise == "badreply-bareid" && (parts[k] == idOf[firstM]+"=" || parts[k] == idOf[firstM]+"=null")
+							if strings.HasPrefix(parts[k], idOf[firstM]+"=E:") || bareOK {
+								parts[k] = wants[k]
+								alt = parts[0] + " " + parts[1]
+							}
+						}
+					}
 					if x.Log[r].Arg(1) != "ok" || (got != want0+" "+want1 && alt != want0+" "+want1) {
 						v = append(v, Viol{"C04.R4", fmt.Sprintf("Batch returned [%s], want [%s %s] (spec order, notifications omitted)", got, want0, want1)})
 					}
